@@ -132,14 +132,14 @@ theorem exec_bound {src qs} (l : List Tid) {s s'} (h : Reachable src qs s) (he :
 /-- **finished_answer.** Whatever the schedule, a finished thread holds exactly the answer of
     Python list semantics on `src` — fast path or generator path, early exit or exhaustion. -/
 theorem finished_answer {src qs s} (h : Reachable src qs s) (hsorted : Sorted src)
-    (t : Tid) (it : Iter) (hit : s.its[t]? = some it) (hd : it.pc = .done) (hsmall : small it.q = true) :
+    (t : Tid) (it : Iter) (hit : s.its[t]? = some it) (hd : it.pc = .done) (hfits : fits it.q src) :
     it.res = some (spec it.q src) ∧ (it.q = .iterAll → it.yielded = src) := by
   obtain ⟨hi, hsrc⟩ := reachable_inv h
   obtain ⟨_, hl⟩ := hi.linv t it hit
   rw [hd] at hl
   simp only [] at hl
   rw [hsrc] at hl
-  exact ⟨hl.2.2 hsorted hsmall, hl.2.1⟩
+  exact ⟨hl.2.2 hsorted hfits, hl.2.1⟩
 
 /-- **all_complete.** A state where no thread can move — reached by every execution that keeps
     choosing enabled threads, after at most `measure (init src qs)` statements — has every thread
@@ -147,7 +147,7 @@ theorem finished_answer {src qs s} (h : Reachable src qs s) (hsorted : Sorted sr
 theorem all_complete {src qs s} (h : Reachable src qs s) (hstuck : ∀ t, step s t = none)
     (t : Tid) (it : Iter) (hit : s.its[t]? = some it) :
     it.pc = .done ∧ (it.q = .iterAll → it.yielded = src) ∧
-    (Sorted src → small it.q = true → it.res = some (spec it.q src)) := by
+    (Sorted src → fits it.q src → it.res = some (spec it.q src)) := by
   have hall : ∀ (t : Tid) (it : Iter), s.its[t]? = some it → it.pc = .done := by
     intro t it hit
     by_cases hd : it.pc = .done
